@@ -156,7 +156,7 @@ pub fn gen(t: &mut Tape) -> RespellCase {
 }
 
 pub fn check(ctx: &mut Ctx) {
-    ctx.rule = "cases = (abstract AST document, spelling A, spelling B, configuration): the same document is rendered under both spellings (ordered pairs of 15 delimiter spellings incl. multi-byte, space-containing, identical start/end, regex-special ones; 5 tag-name sets incl. multi-byte and punctuation). Oracle (metamorphic): clean_B(render_B) == respell(clean_A(render_A)) byte for byte, where respell re-emits reference-tokenized tags with B's delimiters and names; list_all (line range, status) sequences are equal. Non-trivial = the spellings differ in length / multi-byte / space / identical delimiters / names, at least one element is ready and at least one tag survives.".into();
+    ctx.rule = "cases = (abstract AST document, spelling A, spelling B, configuration): the same document is rendered under both spellings (ordered pairs of 18 delimiter spellings incl. multi-byte, space-containing, identical start/end, regex-special ones; 5 tag-name sets incl. multi-byte and punctuation). Oracle (metamorphic): clean_B(render_B) == respell(clean_A(render_A)) byte for byte, where respell re-emits reference-tokenized tags with B's delimiters and names; list_all (line range, status) sequences are equal. Non-trivial = the spellings differ in length / multi-byte / space / identical delimiters / names, at least one element is ready and at least one tag survives.".into();
     ctx.assume("the non-blank delimiter characters of both spellings do not occur in the text outside tags; renderings that do not reference-tokenize into the intended tags are discarded and counted");
     ctx.require_class("tag-names-differ");
     ctx.require_class("identical-start-and-end-delimiter");
